@@ -6,6 +6,9 @@ CONSTANTS
   MaxNodes = 4
   MaxList = 1
   Impl = "required"
+  Group = "normal"
+  ForceOn = FALSE
+  RestartOn = FALSE
   MaxOps = 3
   Depth = 3
 INVARIANT EmitRej
